@@ -223,10 +223,33 @@ func C18(p *core.Program, r *core.Report) {
 				} else {
 					r.Check(polyEq(pl, want), base+"restores-count", txt, p.Pos(stores[0].Pos()), "new = "+pl.String(), "new = "+pl.String())
 				}
-				// every path that writes the entry back passed the store
+				// a copy comes back only from a peer that had been charged: the restore is dominated by the
+				// membership hit that also removes the peer from the sent list
+				conds := core.DominatingConds(stores[0].Block())
+				charged := false
+				for _, c := range conds {
+					b, ok := c.V.(*ssa.BinOp)
+					if !ok || b.Op != token.EQL || !c.True {
+						continue
+					}
+					for _, pair := range [][2]ssa.Value{{b.X, b.Y}, {b.Y, b.X}} {
+						if isPeerIDOf(pair[1], fn.Params[2]) {
+							if ld, ok := pair[0].(*ssa.UnOp); ok {
+								if ia, ok := ld.X.(*ssa.IndexAddr); ok && pathEndsWith(ia.X, "sent") {
+									charged = true
+								}
+							}
+						}
+					}
+				}
+				r.Check(charged, base+"only-charged-peers", "a failed transmission gives a copy back only if the failed peer is in the bundle's sent list, i.e. had been charged (failed direct deliveries to the destination are reported, too, and must not inflate the budget)", p.Pos(stores[0].Pos()), "", "the count is restored for any reported sender: three failed direct deliveries turn a budget of 4 into 7; "+condStrings(conds))
+				// the write-back stores the (possibly updated) local entry
 				for _, mu := range mapUpdatesOf(fn, "bundleData") {
-					ok := core.MustPassBefore(mu, func(i ssa.Instruction) bool { return i == ssa.Instruction(stores[0]) })
-					r.Check(ok, base+"restore-before-write-back", "the restored count is what is written back", p.Pos(mu.Pos()), "", "write-back reachable without the restore")
+					ok := core.DependsOn(mu.Value, func(v ssa.Value) bool {
+						a, isA := v.(*ssa.Alloc)
+						return isA && a == allocOfFieldAddr(stores[0].Addr)
+					})
+					r.Check(ok, base+"restore-before-write-back", "the entry written back is the one whose count was restored", p.Pos(mu.Pos()), "", "write-back stores another value")
 				}
 			}
 			r.Check(len(mapUpdatesOf(fn, "bundleData")) >= 1, base+"writes-back", "the entry is written back", p.Pos(fn.Pos()), "", "no map update")
@@ -273,4 +296,17 @@ func mapUpdatesOf(fn *ssa.Function, field string) []*ssa.MapUpdate {
 		}
 	})
 	return out
+}
+
+func allocOfFieldAddr(v ssa.Value) *ssa.Alloc {
+	for {
+		switch x := v.(type) {
+		case *ssa.FieldAddr:
+			v = x.X
+		case *ssa.Alloc:
+			return x
+		default:
+			return nil
+		}
+	}
 }
